@@ -369,6 +369,10 @@ class CalibrationDataBlock(Block):
             or len(cameras_calibration_map.shape) != 1
         ):
             raise ValueError("Cameras_calibration_map must be a single row numpy array")
+        if len(cameras_calibration_map) != len(cam_data):
+            raise ValueError(
+                "cameras_calibration_map must have one channel for each camera"
+            )
         self.cameras_calibration_map = cameras_calibration_map
 
         self.cam_data = cam_data
